@@ -547,6 +547,10 @@ func (o *operation) handle() {
 		switch err := o.readRequestMessage(nil, o.request.Body, &reqMsg); {
 		case errors.Is(err, io.EOF):
 			// okay for the first message: means empty message data
+			if reqMsg.buf == nil {
+				// (the stream of an enveloped client ended before any envelope)
+				reqMsg.reset(o.bufferPool, true, false)
+			}
 			reqMsg.markReady()
 		case err != nil:
 			o.reportError(err)
